@@ -17,4 +17,25 @@ PROPS = {
         'harnesses': ['c18::h_any', 'c18::h_tokens'],
         'covers': {'c18::h_any': ['has-dash'], 'c18::h_tokens': ['has-dash', 'nb-digits']},
     },
+    'C04': {
+        'harnesses': ['c04::h_any', 'c04::h_skeletons'],
+        'covers': {'c04::h_any': ['compiles', 'rejected', 'matched'], 'c04::h_skeletons': ['compiles', 'matched', 'several-expansions']},
+    },
+    'C05': {
+        'harnesses': ['c05::h_inert', 'c05::h_glob'],
+        'covers': {'c05::h_inert': ['matched', 'kind-alt', 'kind-dewey', 'kind-glob', 'kind-simple'],
+                   'c05::h_glob': ['malformed', 'glob-matched', 'plain-matched']},
+    },
+    'C06': {
+        'harnesses': ['c06::h_pair', 'c06::h_triple'],
+        'covers': {'c06::h_pair': ['both-match'], 'c06::h_triple': ['winner']},
+    },
+    'C14': {
+        'harnesses': ['c14::h_entry', 'c14::h_list_small', 'c14::h_list_lines'],
+        'covers': {'c14::h_entry': ['ok', 'err'], 'c14::h_list_small': ['two-entries']},
+    },
+    'C15': {
+        'harnesses': ['c15::h_all_kinds', 'c15::h_files'],
+        'covers': {'c15::h_files': ['some-file', 'ignored-file']},
+    },
 }
